@@ -819,12 +819,22 @@ func (t *tScreen) drawCell(x, y int) int {
 		// place, then we rewrite that 2nd to last cell.  Old terminals suck.
 		t.TPuts(ti.TGoto(x-1, y))
 		defer func() {
+			// the borrowed cell may be the right half of a wide character,
+			// in which case it is that character which must be repainted
+			rx := x - 1
+			for i := 0; i < x-1; {
+				_, _, _, w := t.cells.GetContent(i, y)
+				if i+w > x-1 {
+					rx = i
+				}
+				i += w
+			}
 			t.TPuts(ti.TGoto(x-1, y))
 			t.TPuts(ti.InsertChar)
 			t.cy = y
 			t.cx = x - 1
-			t.cells.SetDirty(x-1, y, true)
-			_ = t.drawCell(x-1, y)
+			t.cells.SetDirty(rx, y, true)
+			_ = t.drawCell(rx, y)
 			t.TPuts(t.ti.TGoto(0, 0))
 			t.cy = 0
 			t.cx = 0
